@@ -35,7 +35,9 @@ def cord(W, i, j):
     """closed-form order of two class atoms as a z3 Int (codes above)"""
     if i == j:
         return z3.IntVal(0)
-    return z3.If(W.rel(i, j), z3.IntVal(-1), z3.If(W.rel(j, i), z3.IntVal(1), z3.IntVal(2)))
+    # (two distinct classes that are subclasses of each other -- possible with protocols / __subclasshook__ -- are SAME)
+    return z3.If(z3.And(W.rel(i, j), W.rel(j, i)), z3.IntVal(0),
+                 z3.If(W.rel(i, j), z3.IntVal(-1), z3.If(W.rel(j, i), z3.IntVal(1), z3.IntVal(2))))
 
 
 def merge_codes(cs):
@@ -107,7 +109,7 @@ def implied(a, b, W, d):
 
 
 def make_world(ex, shape, real):
-    return World(ex, shape["n"], real=real, hm_names=("hm",))
+    return World(ex, shape["n"], real=real, hm_names=("hm",), antisym=not shape.get("preorder"))
 
 
 def totuple(x):
@@ -198,6 +200,9 @@ def gen_shapes(tier, seed):
         n, depth = 4, 2
     terms = universe(n, depth)
     shapes = [dict(n=n, a=a, b=b) for a, b in itertools.combinations_with_replacement(terms, 2)]
+    # class / generic fragment again over a PREORDER: distinct classes may be subclasses of each other
+    frag = [t for t in terms if t[0] in ("K", "obj", "list", "dict", "type", "raw")]
+    shapes += [dict(n=n, a=a, b=b, preorder=True) for a, b in itertools.combinations_with_replacement(frag, 2)]
     return shapes, len(shapes), False
 
 
